@@ -73,7 +73,7 @@ func errClass(err error) string {
 		{"does not match receipt's hash", "receipt-txhash"}, {"len of transactions", "tx-receipt-count"},
 		{"expected block #", "succession-number"}, {"parent hash does not match", "succession-parent"},
 		{"state commitment mismatch", "root-check"}, {"does not match the head's state root", "root-check"}, {"does not match the expected root", "root-check"},
-		{"unsupported block version", "version"}, {"cannot verify class hash", "class-hash"},
+		{"unsupported block version", "version"}, {"missing L1 data gas price or L2 gas price", "missing-gas-price"}, {"cannot verify class hash", "class-hash"},
 		{"invalid Transaction", "tx-version"}, {"cannot calculate transaction hash", "tx-version"},
 	} {
 		if strings.Contains(s, p[0]) {
@@ -128,6 +128,8 @@ func main() {
 		c.LoadReplay(&rc)
 		if rc.Kind == "stale" {
 			r.staleOldRoot()
+		} else if rc.Kind == "crossing" {
+			r.crossingRegression()
 		} else if rc.Kind == "fixture" || rc.Kind == "probe" {
 			r.fixtures()
 			if rc.Kind == "probe" {
@@ -140,7 +142,7 @@ func main() {
 		c.Finish(rule)
 	}
 	r.staleOldRoot()
-	r.crossingProbe()
+	r.crossingRegression()
 	r.fixtures()
 	rng := hx.NewRNG(c.Seed)
 	start := time.Now()
